@@ -337,3 +337,289 @@ Proof.
 Qed.
 
 End Xtring.
+
+(* ------------------------------------------------------------------ *)
+(* 4. !for / !if : well-nested sequences                               *)
+(* ------------------------------------------------------------------ *)
+Section Trees.
+Context {T : Type}.
+Variable sub : string -> string -> T -> T.
+Variable cx : context.
+
+(* a well-nested sequence is the flattening of a forest *)
+Inductive node :=
+| NText (x : T)
+| NFor (c : string) (toks : list tokitem) (body : list node)
+| NIf (cd : cond) (th : list node) (el : option (list node)).
+
+Fixpoint flatten1 (n : node) : list (directive T) :=
+  match n with
+  | NText x => [DText x]
+  | NFor c toks body => DFor c toks :: flat_map flatten1 body ++ [DEnd]
+  | NIf cd th el =>
+      DIf cd :: flat_map flatten1 th
+        ++ (match el with Some l => DElse :: flat_map flatten1 l | None => [] end) ++ [DEnd]
+  end.
+Definition flatten (l : list node) : list (directive T) := flat_map flatten1 l.
+
+Fixpoint subst_node (c tok : string) (n : node) : node :=
+  match n with
+  | NText x => NText (sub c tok x)
+  | NFor c' toks body => NFor c' (map (subst_tokitem c tok) toks) (map (subst_node c tok) body)
+  | NIf cd th el =>
+      NIf (subst_cond c tok cd) (map (subst_node c tok) th)
+          (match el with Some l => Some (map (subst_node c tok) l) | None => None end)
+  end.
+
+(* the meaning of the directives: a loop is the concatenation of its body instantiated for
+   every token, a conditional is its selected branch *)
+Inductive expands : list node -> list T -> Prop :=
+| X_nil : expands [] []
+| X_text x r out : expands r out -> expands (NText x :: r) (x :: out)
+| X_for c toks body r tl o1 o2 :
+    tokens_of cx toks = Some tl ->
+    expands (flat_map (fun tok => map (subst_node c tok) body) tl) o1 ->
+    expands r o2 ->
+    expands (NFor c toks body :: r) (o1 ++ o2)
+| X_if cd th el r b o1 o2 :
+    cond_eval cx cd = Some b ->
+    expands (if b then th else match el with Some l => l | None => [] end) o1 ->
+    expands r o2 ->
+    expands (NIf cd th el :: r) (o1 ++ o2).
+
+(* induction over nodes *)
+Section NodeInd.
+Variable P : node -> Prop.
+Hypothesis Htext : forall x, P (NText x).
+Hypothesis Hfor : forall c toks body, Forall P body -> P (NFor c toks body).
+Hypothesis Hif : forall cd th el, Forall P th -> (match el with Some l => Forall P l | None => True end) -> P (NIf cd th el).
+Fixpoint node_ind' (n : node) : P n :=
+  let fix go (l : list node) : Forall P l :=
+    match l with [] => Forall_nil P | x :: r => Forall_cons x (node_ind' x) (go r) end in
+  match n with
+  | NText x => Htext x
+  | NFor c toks body => Hfor c toks body (go body)
+  | NIf cd th el => Hif cd th el (go th) (match el with Some l => go l | None => I end)
+  end.
+End NodeInd.
+
+Lemma flatten_app a b : flatten (a ++ b) = flatten a ++ flatten b.
+Proof. unfold flatten. apply flat_map_app. Qed.
+
+Lemma flatten_cons n r : flatten (n :: r) = flatten1 n ++ flatten r.
+Proof. reflexivity. Qed.
+
+Ltac normb H := repeat (cbn [List.length flatten1 Nat.add app] in H; rewrite ?app_length in H).
+Ltac idx := f_equal; repeat (cbn [List.length flatten1 Nat.add]; rewrite ?app_length); cbn [List.length Nat.add]; lia.
+
+(* a flattened forest never closes a level that was open before it *)
+Lemma find_end_skip1 n : forall acc i rest, 0 < acc ->
+  find_end_from acc i (flatten1 n ++ rest) = find_end_from acc (i + List.length (flatten1 n)) rest.
+Proof.
+  induction n using node_ind'; intros acc i rest Hacc.
+  - simpl. replace (acc + 0) with acc by lia. destruct (Z.eqb_spec acc 0); [lia|]. f_equal. lia.
+  - assert (Hf : forall acc i rest, 0 < acc ->
+              find_end_from acc i (flat_map flatten1 body ++ rest) = find_end_from acc (i + List.length (flat_map flatten1 body)) rest).
+    { clear Hacc acc i rest. induction H as [|x l Hx Hl IH]; intros acc i rest Hacc; simpl.
+      - f_equal. lia.
+      - rewrite <- app_assoc, Hx, IH by assumption. f_equal. rewrite app_length. lia. }
+    cbn [flatten1 app find_end_from level]. destruct (Z.eqb_spec (acc + 1) 0); [lia|].
+    rewrite <- app_assoc, Hf by lia. cbn [app find_end_from level].
+    replace (acc + 1 + -1) with acc by lia. destruct (Z.eqb_spec acc 0); [lia|].
+    idx.
+  - assert (Hf : forall l, Forall (fun n => forall acc i rest, 0 < acc ->
+                 find_end_from acc i (flatten1 n ++ rest) = find_end_from acc (i + List.length (flatten1 n)) rest) l ->
+              forall acc i rest, 0 < acc ->
+              find_end_from acc i (flat_map flatten1 l ++ rest) = find_end_from acc (i + List.length (flat_map flatten1 l)) rest).
+    { clear. intros l Hl. induction Hl as [|x l Hx Hl IH]; intros acc i rest Hacc; simpl.
+      - f_equal. lia.
+      - rewrite <- app_assoc, Hx, IH by assumption. f_equal. rewrite app_length. lia. }
+    cbn [flatten1 app find_end_from level]. destruct (Z.eqb_spec (acc + 1) 0); [lia|].
+    rewrite <- !app_assoc, (Hf th H) by lia.
+    destruct el as [l|].
+    + cbn [app find_end_from level]. replace (acc + 1 + 0) with (acc + 1) by lia.
+      destruct (Z.eqb_spec (acc + 1) 0); [lia|].
+      rewrite (Hf l H0) by lia. cbn [app find_end_from level].
+      replace (acc + 1 + -1) with acc by lia. destruct (Z.eqb_spec acc 0); [lia|].
+      idx.
+    + cbn [app find_end_from level].
+      replace (acc + 1 + -1) with acc by lia. destruct (Z.eqb_spec acc 0); [lia|].
+      idx.
+Qed.
+
+Lemma find_end_skip f : forall acc i rest, 0 < acc ->
+  find_end_from acc i (flatten f ++ rest) = find_end_from acc (i + List.length (flatten f)) rest.
+Proof.
+  induction f as [|n f IH]; intros acc i rest Hacc; simpl.
+  - f_equal. lia.
+  - rewrite <- app_assoc, find_end_skip1, IH by assumption. f_equal. rewrite app_length. lia.
+Qed.
+
+(* ... and contains no !else at the level of the enclosing !if *)
+Lemma find_else_skip1 n : forall acc i e rest, 1 <= acc -> (i + List.length (flatten1 n) <= e)%nat ->
+  find_else_from acc i (Some e) (flatten1 n ++ rest) = find_else_from acc (i + List.length (flatten1 n)) (Some e) rest.
+Proof.
+  assert (Hf : forall l, Forall (fun n => forall acc i e rest, 1 <= acc -> (i + List.length (flatten1 n) <= e)%nat ->
+                 find_else_from acc i (Some e) (flatten1 n ++ rest) = find_else_from acc (i + List.length (flatten1 n)) (Some e) rest) l ->
+              forall acc i e rest, 1 <= acc -> (i + List.length (flat_map flatten1 l) <= e)%nat ->
+              find_else_from acc i (Some e) (flat_map flatten1 l ++ rest)
+              = find_else_from acc (i + List.length (flat_map flatten1 l)) (Some e) rest).
+  { intros l Hl. induction Hl as [|x l Hx Hl IH]; intros acc i e rest Hacc Hb; simpl.
+    - f_equal. lia.
+    - simpl in Hb. rewrite app_length in Hb.
+      rewrite <- app_assoc, Hx, IH by (try assumption; lia). f_equal. rewrite app_length. lia. }
+  induction n using node_ind'; intros acc i e rest Hacc Hb.
+  - simpl in *. destruct (Nat.leb_spec e i); [lia|].
+    replace (acc + 0) with acc by lia. simpl. rewrite andb_false_r. f_equal. lia.
+  - cbn [flatten1 app find_else_from level is_else]. normb Hb.
+    destruct (Nat.leb_spec e i); [lia|]. rewrite andb_false_r.
+    rewrite <- app_assoc, (Hf body H) by lia. cbn [app find_else_from level is_else].
+    destruct (Nat.leb_spec e (S i + List.length (flat_map flatten1 body))); [lia|]. rewrite andb_false_r.
+    idx.
+  - cbn [flatten1 app find_else_from level is_else]. normb Hb.
+    destruct (Nat.leb_spec e i); [lia|]. rewrite andb_false_r.
+    rewrite <- !app_assoc, (Hf th H) by lia.
+    destruct el as [l|].
+    + cbn [app find_else_from level is_else]. normb Hb.
+      destruct (Nat.leb_spec e (S i + List.length (flat_map flatten1 th))); [lia|].
+      replace (acc + 1 + 0 =? 1) with false by (symmetry; apply Z.eqb_neq; lia). cbn [andb].
+      rewrite (Hf l H0) by lia. cbn [app find_else_from level is_else].
+      destruct (Nat.leb_spec e (S (S i + List.length (flat_map flatten1 th)) + List.length (flat_map flatten1 l))); [lia|].
+      rewrite andb_false_r. idx.
+    + cbn [app find_else_from level is_else]. normb Hb.
+      destruct (Nat.leb_spec e (S i + List.length (flat_map flatten1 th))); [lia|]. rewrite andb_false_r.
+      idx.
+Qed.
+
+Lemma find_else_skip f : forall acc i e rest, 1 <= acc -> (i + List.length (flatten f) <= e)%nat ->
+  find_else_from acc i (Some e) (flatten f ++ rest) = find_else_from acc (i + List.length (flatten f)) (Some e) rest.
+Proof.
+  induction f as [|n f IH]; intros acc i e rest Hacc Hb; simpl.
+  - f_equal. lia.
+  - simpl in Hb. rewrite app_length in Hb. fold (flatten f) in *.
+    rewrite <- app_assoc, find_else_skip1, IH by (try assumption; lia). f_equal. rewrite app_length. lia.
+Qed.
+
+(* substitution commutes with flattening *)
+Lemma flatten_subst c tok f :
+  map (subst_directive sub c tok) (flatten f) = flatten (map (subst_node c tok) f).
+Proof.
+  assert (H1 : forall n, map (subst_directive sub c tok) (flatten1 n) = flatten1 (subst_node c tok n)).
+  { induction n using node_ind'.
+    - reflexivity.
+    - cbn [flatten1 subst_node map]. rewrite map_app. cbn [map subst_directive]. f_equal. f_equal.
+      induction H as [|x l Hx Hl IH]; simpl; [reflexivity|]. rewrite map_app, Hx, IH. reflexivity.
+    - assert (Hf : forall l, Forall (fun n => map (subst_directive sub c tok) (flatten1 n) = flatten1 (subst_node c tok n)) l ->
+                map (subst_directive sub c tok) (flat_map flatten1 l) = flat_map flatten1 (map (subst_node c tok) l)).
+      { intros l Hl. induction Hl as [|x l Hx Hl IH]; simpl; [reflexivity|]. rewrite map_app, Hx, IH. reflexivity. }
+      cbn [flatten1 subst_node map]. rewrite !map_app. cbn [map subst_directive]. rewrite (Hf th H).
+      destruct el as [l|]; cbn [map subst_directive]; [rewrite (Hf l H0)|]; reflexivity. }
+  induction f as [|n f IH]; simpl; [reflexivity|]. rewrite map_app, H1. fold (flatten f). rewrite IH. reflexivity.
+Qed.
+
+Lemma flatten_flat_map (g : string -> list node) tl :
+  flatten (flat_map g tl) = flat_map (fun tok => flatten (g tok)) tl.
+Proof. induction tl; simpl; [reflexivity|]. rewrite flatten_app, IHtl. reflexivity. Qed.
+
+Lemma firstn_app_exact {A} (a b : list A) : firstn (List.length a) (a ++ b) = a.
+Proof. induction a; simpl; congruence. Qed.
+Lemma skipn_app_exact {A} (a b : list A) : skipn (List.length a) (a ++ b) = b.
+Proof. induction a; simpl; congruence. Qed.
+
+Lemma skipn_mid {A} (P : list A) (x : A) (R : list A) : skipn (S (List.length P)) (P ++ x :: R) = R.
+Proof. induction P; simpl; auto. Qed.
+
+Lemma rapp_ok (a b : list T) : rapp (ROk a) (ROk b) = ROk (a ++ b).
+Proof. reflexivity. Qed.
+
+(* Theorem 4: _resolve_sequence on a well-nested sequence is the expansion; the fuel needed is
+   bounded and any larger fuel gives the same answer *)
+Theorem resolve_flatten f out : expands f out ->
+  exists n, forall fuel, (n <= fuel)%nat -> resolve sub cx true fuel (flatten f) = ROk out.
+Proof.
+  induction 1 as [| x r out _ [n IH] | c toks body r tl o1 o2 Htl _ [n1 IH1] _ [n2 IH2]
+                  | cd th el r b o1 o2 Hcd _ [n1 IH1] _ [n2 IH2]].
+  - exists 1%nat. intros [|fu] Hf; [lia|]. reflexivity.
+  - exists (S n). intros [|fu] Hf; [lia|]. cbn [flatten flat_map flatten1 app resolve].
+    fold (flatten r). rewrite IH by lia. reflexivity.
+  - exists (S (Nat.max n1 n2)). intros [|fu] Hf; [lia|].
+    rewrite flatten_cons. cbn [flatten1]. fold (flatten body).
+    set (B := flatten body). set (R := flatten r).
+    assert (Hs : (DFor c toks :: B ++ [DEnd]) ++ R = DFor c toks :: B ++ DEnd :: R)
+      by (simpl; rewrite <- app_assoc; reflexivity).
+    rewrite Hs. cbn [resolve].
+    assert (He : find_end (DFor c toks :: B ++ DEnd :: R) = Some (S (List.length B))).
+    { unfold find_end. cbn [find_end_from level]. change (0 + 1 =? 0) with false. cbv iota.
+      unfold B. rewrite find_end_skip by lia. cbn [find_end_from level]. reflexivity. }
+    rewrite He, Htl.
+    assert (Hbody : slice 1 (S (List.length B)) (DFor c toks :: B ++ DEnd :: R) = B).
+    { unfold slice. simpl. rewrite Nat.sub_0_r. apply firstn_app_exact. }
+    assert (Hrest : skipn (S (S (List.length B))) (DFor c toks :: B ++ DEnd :: R) = R).
+    { apply (skipn_mid (DFor c toks :: B) DEnd R). }
+    rewrite Hbody, Hrest.
+    assert (Hnew : flat_map (fun tok => map (subst_directive sub c tok) B) tl
+                   = flatten (flat_map (fun tok => map (subst_node c tok) body) tl)).
+    { rewrite flatten_flat_map. apply flat_map_ext. intros tok. apply flatten_subst. }
+    rewrite Hnew, IH1, IH2 by lia. reflexivity.
+  - exists (S (Nat.max n1 n2)). intros [|fu] Hf; [lia|].
+    rewrite flatten_cons. cbn [flatten1]. fold (flatten th).
+    set (TH := flatten th). set (R := flatten r).
+    destruct el as [l|].
+    + fold (flatten l). set (EL := flatten l).
+      assert (Hs : (DIf cd :: TH ++ (DElse :: EL) ++ [DEnd]) ++ R = DIf cd :: TH ++ DElse :: EL ++ DEnd :: R)
+        by (simpl; rewrite <- !app_assoc; simpl; rewrite <- app_assoc; reflexivity).
+      rewrite Hs. cbn [resolve].
+      set (s := DIf cd :: TH ++ DElse :: EL ++ DEnd :: R).
+      assert (He : find_end s = Some (S (List.length TH) + S (List.length EL))%nat).
+      { unfold find_end, s. cbn [find_end_from level]. change (0 + 1 =? 0) with false. cbv iota.
+        unfold TH. rewrite find_end_skip by lia. cbn [find_end_from level]. change (0 + 1 + 0 =? 0) with false. cbv iota.
+        unfold EL. rewrite find_end_skip by lia. cbn [find_end_from level]. change (0 + 1 + 0 + -1 =? 0) with true. cbv iota.
+        f_equal. lia. }
+      rewrite He, Hcd.
+      assert (Hel : find_else true (S (List.length TH) + S (List.length EL)) s = Some (S (List.length TH))).
+      { unfold find_else, s. cbn [find_else_from level is_else]. rewrite andb_false_r.
+        destruct (Nat.leb_spec (S (List.length TH) + S (List.length EL)) 0); [lia|].
+        unfold TH. rewrite find_else_skip by (fold TH; lia). cbn [find_else_from level is_else].
+        fold TH. destruct (Nat.leb_spec (S (List.length TH) + S (List.length EL)) (1 + List.length TH)); [lia|].
+        reflexivity. }
+      rewrite Hel.
+      assert (Hth : slice 1 (S (List.length TH)) s = TH).
+      { unfold slice, s. simpl. rewrite Nat.sub_0_r. apply firstn_app_exact. }
+      assert (Hels : slice (S (S (List.length TH))) (S (List.length TH) + S (List.length EL)) s = EL).
+      { unfold slice, s. pose proof (skipn_mid (DIf cd :: TH) DElse (EL ++ DEnd :: R)) as Hk.
+        cbn [List.length app] in Hk. rewrite Hk.
+        replace (S (List.length TH) + S (List.length EL) - S (S (List.length TH)))%nat with (List.length EL) by lia.
+        apply firstn_app_exact. }
+      assert (Hrest : skipn (S (S (List.length TH) + S (List.length EL))) s = R).
+      { unfold s.
+        replace (S (List.length TH) + S (List.length EL))%nat with (List.length (DIf cd :: TH ++ DElse :: EL))
+          by (cbn [List.length]; rewrite app_length; cbn [List.length]; lia).
+        replace (DIf cd :: TH ++ DElse :: EL ++ DEnd :: R) with ((DIf cd :: TH ++ DElse :: EL) ++ DEnd :: R)
+          by (cbn [app]; rewrite <- app_assoc; reflexivity).
+        apply skipn_mid. }
+      rewrite Hrest. destruct b; [rewrite Hth | rewrite Hels]; rewrite IH1, IH2 by lia; reflexivity.
+    + assert (Hs : (DIf cd :: TH ++ [] ++ [DEnd]) ++ R = DIf cd :: TH ++ DEnd :: R)
+        by (simpl; rewrite <- app_assoc; reflexivity).
+      rewrite Hs. cbn [resolve].
+      set (s := DIf cd :: TH ++ DEnd :: R).
+      assert (He : find_end s = Some (S (List.length TH))).
+      { unfold find_end, s. cbn [find_end_from level]. change (0 + 1 =? 0) with false. cbv iota.
+        unfold TH. rewrite find_end_skip by lia. cbn [find_end_from level]. reflexivity. }
+      rewrite He, Hcd.
+      assert (Hel : find_else true (S (List.length TH)) s = None).
+      { unfold find_else, s. cbn [find_else_from level is_else]. rewrite andb_false_r.
+        destruct (Nat.leb_spec (S (List.length TH)) 0); [lia|].
+        unfold TH. rewrite find_else_skip by (fold TH; lia). cbn [find_else_from]. fold TH.
+        destruct (Nat.leb_spec (S (List.length TH)) (1 + List.length TH)); [reflexivity|lia]. }
+      rewrite Hel.
+      assert (Hth : slice 1 (S (List.length TH)) s = TH).
+      { unfold slice, s. simpl. rewrite Nat.sub_0_r. apply firstn_app_exact. }
+      assert (Hels : slice (S (S (List.length TH))) (S (List.length TH)) s = []).
+      { unfold slice. replace (S (List.length TH) - S (S (List.length TH)))%nat with 0%nat by lia. reflexivity. }
+      assert (Hrest : skipn (S (S (List.length TH))) s = R).
+      { apply (skipn_mid (DIf cd :: TH) DEnd R). }
+      rewrite Hrest. destruct b; [rewrite Hth | rewrite Hels]; [rewrite IH1, IH2 by lia; reflexivity|].
+      simpl in IH1. change (@nil (directive T)) with (flatten []). rewrite IH1, IH2 by lia. reflexivity.
+Qed.
+
+End Trees.
